@@ -8,6 +8,7 @@ import (
 	"crypto/sha256"
 	"encoding/binary"
 	"fmt"
+	tmsecp "github.com/tendermint/tendermint/crypto/secp256k1"
 
 	ethcrypto "github.com/ethereum/go-ethereum/crypto"
 	tmed "github.com/tendermint/tendermint/crypto/ed25519"
@@ -102,8 +103,12 @@ func NewSecpAccount(seed uint64, label string) *Account {
 	if err != nil {
 		panic(err)
 	}
-	ph, _ := priv.GetHandler()
-	pub := ph.PubKey()
+	// the repository's own PrivateKeySECP256K1.PubKey() returns the amino encoding (38 bytes), which its
+	// PublicKey.GetHandler refuses; a client builds the public key from the raw 33 bytes
+	var k tmsecp.PrivKeySecp256k1
+	copy(k[:], sec)
+	raw := k.PubKey().(tmsecp.PubKeySecp256k1)
+	pub := keys.PublicKey{KeyType: keys.SECP256K1, Data: append([]byte{}, raw[:]...)}
 	h, err := pub.GetHandler()
 	if err != nil {
 		panic(err)
